@@ -620,6 +620,11 @@ def m_iter_map(I, st, call):
 
 def _range_item(I, st, it, item_ty):
     """abstract item of a range-like iterator value"""
+    if isinstance(it, StructV) and len(it.fields) == 2 and all(isinstance(f, IntV) for f in it.fields):
+        x = I.fresh_int(st, "item", I.int_ty(item_ty) or it.fields[0].ty or USIZE)
+        st.add_fact(x.aff - it.fields[0].aff)
+        st.add_fact(it.fields[1].aff - x.aff - 1)
+        return x
     if isinstance(it, OpaqueV):
         if it.get("iter") == "range_inclusive":
             lo, hi = it.get("lo"), it.get("hi")
@@ -684,6 +689,27 @@ def m_fold(I, st, call):
                 nxt.extend(rs)
             states = nxt
         return states
+    if cnt is not None and not cnt.is_const():
+        clo, chi = st.range(cnt)
+        if 0 <= clo and chi <= 8:
+            res = []
+            for nfix in range(clo, chi + 1):
+                s_n = st.copy()
+                s_n.add_eq(cnt, Aff.const(nfix))
+                if s_n.dead:
+                    continue
+                states = [(s_n, init)]
+                for k in range(nfix):
+                    nxt = []
+                    for s, acc in states:
+                        item = _elem_item(I, s, it, item_ty)
+                        rs = call_fn_value(I, s, call, f, fty, [acc, item], ("fold", nfix, k))
+                        if rs is None:
+                            return None
+                        nxt.extend(rs)
+                    states = nxt
+                res.extend(states)
+            return res
     lo_hi = None
     if isinstance(it, OpaqueV) and it.get("iter") == "range_inclusive":
         lo, hi = it.get("lo"), it.get("hi")
@@ -784,7 +810,7 @@ def m_position(I, st, call):
 def m_find(I, st, call):
     it = call.args[0]
     itv = I.read(st, it.place) if isinstance(it, RefV) else it
-    if isinstance(itv, OpaqueV) and itv.get("iter") == "range":
+    if (isinstance(itv, OpaqueV) and itv.get("iter") == "range") or (isinstance(itv, StructV) and len(itv.fields) == 2):
         return m_find_range(I, st, call, itv)
     r = _search_iter(I, st, call, "find")
     if r is None:
@@ -800,7 +826,6 @@ def m_find_range(I, st, call, itv):
     """find over an integer range a..b with a predicate: result r satisfies
     a <= r < b and pred(r); all earlier indices fail the predicate (not used)"""
     f, fty = call.args[1], call.arg_tys[1]
-    r = itv.get("range")
     out = [(st.copy(), mk_none(call.dest_ty))]
     item = _range_item(I, st, itv, USIZE)
     if item is None:
@@ -947,6 +972,27 @@ def generic_next(I, st, call):
               "<&mut I as core::iter::traits::iterator::Iterator>::next",
               "core::iter::traits::iterator::Iterator::next")
 def m_next(I, st, call):
+    ref = call.args[0]
+    it = I.read(st, ref.place) if isinstance(ref, RefV) else None
+    if isinstance(it, OpaqueV) and isinstance(it.get("last_key"), Aff) and "btree" in call.path:
+        dt = call.dest_ty
+        item_ty = dt[2][0] if dt and dt[0] == "adt" and dt[2] else None
+        if item_ty is not None and item_ty[0] == "tuple" and len(item_ty[1]) == 2 and item_ty[1][0][0] == "ref":
+            kt = item_ty[1][0][2]
+            kit = I.int_ty(kt)
+            if kit is not None:
+                s2 = st.copy()
+                k = I.fresh_int(s2, "key", kit, info=("btree_key",))
+                s2.add_fact(k.aff - it.get("last_key") - 1)
+                I.nsym += 1
+                key = ("h", "mapkey*%d" % I.nsym)
+                s2.cells[key] = k
+                val = I.mat(s2, item_ty[1][1], "mapval")
+                I.write(s2, ref.place, it.with_(last_key=k.aff))
+                out = [(st, mk_none(dt))]
+                if not s2.dead:
+                    out.append((s2, mk_option(I, StructV([RefV(Place(key), False), val]), dt)))
+                return out
     return generic_next(I, st, call)
 
 
@@ -1010,7 +1056,11 @@ def m_list_mut(I, st, call):
        "alloc::collections::linked_list::LinkedList::<T, A>::iter", "alloc::collections::linked_list::LinkedList::<T, A>::iter_mut",
        "<alloc::collections::linked_list::LinkedList<T, A> as core::iter::traits::collect::IntoIterator>::into_iter")
 def m_coll_iter(I, st, call):
-    return [(st, OpaqueV(call.dest_ty, (("iter", call.name),)))]
+    attrs = [("iter", call.name)]
+    if "btree" in call.path:
+        # keys come out strictly ascending: remember the last key yielded
+        attrs.append(("last_key", Aff.const(-1)))
+    return [(st, OpaqueV(call.dest_ty, tuple(attrs)))]
 
 
 @model("alloc::collections::btree::map::BTreeMap::<K, V, A>::entry", "lru_time_cache::LruCache::<Key, Value>::entry")
